@@ -206,6 +206,31 @@ Definition diff (o : opts) (old new : option index) (fuel : nat) : dres :=
       else DOk cs
   end.
 
+(* ---- `roots` (diff.py 175-194): one queue item per root, `roots or [()]` ------------------------------ *)
+Definition root_items_at (i : option index) (r : key) : items :=
+  match i with
+  | None => []
+  | Some ix => match get_info ix r with Some inf => [(r, inf)] | None => [] end      (* except KeyError: pass *)
+  end.
+Definition eff_roots (rs : list key) : list key := match rs with [] => [[]] | _ => rs end.
+Definition root_queue (old new : option index) (rs : list key) : list (items * items) :=
+  map (fun r => (root_items_at old r, root_items_at new r)) (eff_roots rs).
+
+Definition diff_core_roots (o : opts) (old new : option index) (rs : list key) (fuel : nat) : option (list change) :=
+  bfsq (step_out o old new) (step_todo o old new) fuel (root_queue old new rs).
+
+Definition fuel_for_roots (old new : option index) (rs : list key) : nat :=
+  S (length (eff_roots rs) * fuel_for old new).
+
+Definition diff_roots (o : opts) (old new : option index) (rs : list key) (fuel : nat) : dres :=
+  match diff_core_roots o old new rs fuel with
+  | None => DFuel
+  | Some cs =>
+      if o_with_renames o && is_some old && is_some new
+      then if o_meta_only o then DErr 10 else DOk (detect_renames cs)
+      else DOk cs
+  end.
+
 (* ---- the flat specification: a key-by-key comparison of two dictionaries --------------------- *)
 Definition classify_key (o : opts) (k : key) (a b : option ientry) : list change :=
   let a' := option_map norm_meta a in
@@ -277,6 +302,9 @@ Definition opts_of_code (c : N) : opts :=
 
 Definition run_diffs (old new : option index) (codes : list N) : val :=
   VL (map (fun c => enc_dres (diff (opts_of_code c) old new (fuel_for old new))) codes).
+
+Definition run_diffs_roots (old new : option index) (rs : list key) (codes : list N) : val :=
+  VL (map (fun c => enc_dres (diff_roots (opts_of_code c) old new rs (fuel_for_roots old new rs))) codes).
 
 (* the deciders on one pair of entries under all 16 flag combinations
    (bit 0 hash_only, 1 meta_only, 2 cmp_key, 3 unknown) *)
